@@ -140,7 +140,13 @@ fn opt_v(o: &Option<String>) -> Value {
 /// Generator: returns (document fragment, intended decoded value as a plain JSON tree).
 fn gen_package(i: usize) -> (Value, Value) {
     let mut m = Map::new();
-    let name = format!("pkg{i}");
+    // package names are joined to the codebases verbatim, whatever they start with
+    let name = match choose("pkg.name", 4) {
+        0 => format!("pkg{i}"),
+        1 => format!("/abs/pkg{i}"),
+        2 => format!("../up/pkg{i}?x=1#f"),
+        _ => String::new(),
+    };
     m.insert("name".into(), json!(name));
     let required = choose("pkg.required", 2) == 1;
     m.insert("required".into(), json!(required));
@@ -183,7 +189,15 @@ fn gen_updatecheck() -> (Value, Value) {
     let urls: Value = match [2usize, 0, 1, 3][choose("uc.urls", 4)] {
         0 => Value::Null,
         n => {
-            let list: Vec<String> = (0..n - 1).map(|i| format!("http://cb{i}/")).collect();
+            // codebases with and without a trailing slash, with a query
+            let shape = choose("uc.codebase_shape", 3);
+            let list: Vec<String> = (0..n - 1)
+                .map(|i| match shape {
+                    0 => format!("http://cb{i}/"),
+                    1 => format!("http://cb{i}/dir"),
+                    _ => format!("http://cb{i}/?q="),
+                })
+                .collect();
             m.insert(
                 "urls".into(),
                 json!({"url": list.iter().map(|c| json!({"codebase": c})).collect::<Vec<_>>()}),
